@@ -5,7 +5,7 @@
    A log file is the list of its scan-accepted messages (what the unfiltered read returns; that the
    indexer finds exactly those is C08) plus its size.  A message: offset, total size (header +
    payload), type, source identifier, P1 time in eighths of a second (None = no / invalid P1 time). *)
-From Coq Require Import ZArith List Bool Lia.
+From Coq Require Import ZArith List Bool Lia Sorted.
 From FEC Require Import Generated.LogReaderConsts Models.FileIndexOpsM.
 Import ListNotations.
 Open Scope Z_scope.
@@ -395,3 +395,16 @@ Fixpoint spec_run (c : cfg) (f : file) (s : cursor) (ops : list op) : list opres
 Definition spec_script (c : cfg) (f : file) (srcs : option (list Z)) (ops : list op) : list opres :=
   let orig := index_of_file f (c_max_bytes c) in
   spec_run c f (mkC orig orig (-1) srcs) ops.
+
+(* ------------------------------------------------------------------------------------------------ *)
+(* Well-formed log (hypothesis of the theorems): the messages lie one after another inside the file,
+   offsets are not negative, each message is at least a header long, and P1 times do not decrease
+   (the documented assumption of TimeRange / FileIndex). *)
+Definition msg_before (a b : msg) : Prop := m_off a + m_size a <= m_off b.
+Definition mtle (a b : msg) : Prop :=
+  match m_time a, m_time b with Some x, Some y => x <= y | _, _ => True end.
+Definition msg_ok (fsize : Z) (m : msg) : Prop :=
+  0 <= m_off m /\ header_size <= m_size m /\ m_off m + m_size m <= fsize /\
+  match m_time m with Some t => 0 <= t | None => True end.
+Definition wf_file (f : file) : Prop :=
+  StronglySorted msg_before (f_msgs f) /\ StronglySorted mtle (f_msgs f) /\ Forall (msg_ok (f_size f)) (f_msgs f).
